@@ -2422,6 +2422,26 @@ func isArray(t *itype) bool {
 	return k == reflect.Array || k == reflect.Slice
 }
 
+// isIndexable returns true if a value of type t can be indexed. It is also true for
+// a generic function or a struct type, which may be instantiated by an index of types.
+func isIndexable(t *itype) bool {
+	switch t.cat {
+	case nilT:
+		return false
+	case funcT:
+		return isGeneric(t)
+	case genericT, structT:
+		return true
+	}
+	switch rt := t.TypeOf(); rt.Kind() {
+	case reflect.Array, reflect.Map, reflect.Slice, reflect.String:
+		return true
+	case reflect.Ptr:
+		return rt.Elem().Kind() == reflect.Array
+	}
+	return false
+}
+
 func isInterfaceSrc(t *itype) bool {
 	return t.cat == interfaceT || (t.cat == linkedT && isInterfaceSrc(t.val))
 }
